@@ -30,6 +30,9 @@ D4 (K2) _merge_executable: a deleted file is left alone; winner "this" on an unm
 tt.set_executability; on "conflict" the bit is taken from the side that still has the file.
 D5 (K5) _compute_transform picks _three_way without LCA trees and _lca_multi_way with them, and hands that one resolver
 to both _merge_names and _merge_executable; contents are merged between the two.
+D6 a copy reported by OTHER is merged as an add and its contents are created (`changed` forced).
+D7 (K5) the parent handed to tt.adjust_path is ROOT_PARENT or _parent_trans_id(winning_tree, winning_parent_path): resolved
+in the tree whose parent won.
 Does not decide: the laws over whole trees (tree values), text merging (C19), the entry generators _entries3/_entries_lca.
 """
 
@@ -111,10 +114,32 @@ def run(ctx):
     ctx.check("D5-one-resolver", wt, len(uses) == 2 and all(u[1] == ["resolver"] for u in uses), "names/parents and the execute bit are decided by the same resolver", construct=str(uses), message=f"_merge_names and _merge_executable do not receive the same resolver: {uses}")
     mn, mc, me = calling(gt, attr="_merge_names"), calling(gt, attr="_do_merge_contents"), calling(gt, attr="_merge_executable")
     ctx.check("D5-one-resolver", wt, bool(mn and mc and me) and gt.always_before(mn, mc)[0] and gt.always_before(mn, me)[0] and all(m_ > c_ for m_ in [gt.nodes[i].lineno for i in me] for c_ in [gt.nodes[i].lineno for i in mc]), "per entry: names first, contents (when merged) before the execute bit, which needs the contents' status")
+    # ---- D6: a copy reported by OTHER is merged as an add, contents included ------------------------------------------
+    cp = [n for n in ast.walk(ft) if isinstance(n, ast.If) and norm(n.test) == "copied"]
+    ok = len(cp) == 1
+    if ok:
+        asg = {norm(s_.targets[0]): norm(s_.value) for s_ in cp[0].body if isinstance(s_, ast.Assign)}
+        nulled = [k for k, v in asg.items() if v.startswith("(None, ") and v.endswith(", None)")]
+        ok = len(nulled) >= 3 and asg.get("changed") == "True"
+    ctx.check("D6-copy-merged-as-add", wt, ok, "when an entry is a copy its base/this sides are blanked (an add) and `changed` is forced so that its contents are created", message="a copy is turned into an add (base and this sides blanked) without forcing `changed`: a byte-identical copy gets a name but no content and silently disappears from the merge result")
+    uses_changed = [n for n in ast.walk(ft) if isinstance(n, ast.If) and norm(n.test) == "changed" and any(call_attr(c) == "_do_merge_contents" for c in calls_in(n))]
+    ctx.check("D6-copy-merged-as-add", wt, len(uses_changed) == 1, "_do_merge_contents is called for entries whose content changed")
+    # ---- D7: the parent handed to adjust_path is resolved in the winning tree ---------------------------------------
+    fnn = repo.func(MG, f"{M}._merge_names")
+    adjs = [c for c in calls_in(fnn) if call_attr(c) == "adjust_path" and call_recv(c) == "self.tt"]
+    ok = len(adjs) == 1 and isinstance(adjs[0].args[1], ast.Name)
+    srcs = []
+    if ok:
+        pv = adjs[0].args[1].id
+        srcs = [norm(s_.value) for s_ in ast.walk(fnn) if isinstance(s_, ast.Assign) and any(isinstance(t, ast.Name) and t.id == pv for t in s_.targets)]
+        ok = bool(srcs) and all(v == "transform.ROOT_PARENT" or (v.startswith("self._parent_trans_id(") and "winning_tree" in v and "winning_parent_path" in v) or ("winning_tree" in v and "winning_parent_path" in v) for v in srcs)
+    ctx.check("D7-parent-resolved-in-winning-tree", wn, ok, "the new parent is ROOT_PARENT or _parent_trans_id(winning_tree, winning_parent_path)", construct=str(srcs), message=f"the parent trans id handed to adjust_path comes from {srcs}: a value looked up without the winning tree (e.g. a cache keyed by the path alone) resolves the same path string in the wrong tree when THIS and OTHER use one name for different directories")
     ctx.sample({"winner_idx": table, "resolver_values": rv})
 
 
 MUTANTS = [
+    Mutant("copies get a name but no content", MG, "                    executable3 = (None, executable3[1], None)\n                    changed = True\n                    copied = False\n", "                    executable3 = (None, executable3[1], None)\n", expect="D6-copy-merged-as-add"),
+    Mutant("parent lookups cached by path alone", MG, "                parent_trans_id = self._parent_trans_id(\n                    winning_tree, winning_parent_path\n                )\n            self.tt.adjust_path", "                parent_trans_id = self._cache.get(winning_parent_path) or self._parent_trans_id(\n                    winning_tree, winning_parent_path\n                )\n                parent_trans_id = self._cache.setdefault(winning_parent_path, parent_trans_id)\n            self.tt.adjust_path", expect="D7-parent-resolved-in-winning-tree"),
     Mutant("winner_idx swaps this and other", MG, '    winner_idx = {"this": 2, "other": 1, "conflict": 1}', '    winner_idx = {"this": 1, "other": 2, "conflict": 1}', expect="D1-positional-convention"),
     Mutant("winning tree tuple in (base, this, other) order", MG, "            self.base_tree,\n            self.other_tree,\n            self.this_tree,\n        )[winning_idx]", "            self.base_tree,\n            self.this_tree,\n            self.other_tree,\n        )[winning_idx]", expect="D1-positional-convention"),
     Mutant("names moved although this wins twice", MG, '        if name_winner == "this" and parent_id_winner == "this":\n            return\n', '        if name_winner == "this" and parent_id_winner == "this" and other_path is None:\n            return\n', expect="D2-this-wins-nothing-moves"),
